@@ -286,7 +286,11 @@ class DMRGEngine(IterativeSweeps):
         # energy and entropy before the iteration:
         if len(self.sweep_stats['E']) < 1:  # first iteration
             E_old = np.nan
-            S_old = np.mean(self.psi.entanglement_entropy())
+            try:
+                S_old = np.mean(self.psi.entanglement_entropy())
+            except ValueError:
+                # non-diagonal Schmidt values, e.g. after resuming from a checkpoint saved with an active mixer
+                S_old = np.nan
         else:
             E_old = self.sweep_stats['E'][-1]
             S_old = self.sweep_stats['S'][-1]
